@@ -55,3 +55,16 @@ Theorem C18_clock_values : forall R ks p,
   snd (wasi_step R c (ClockTimeGet ClockIDMonotonic p)) = (0, le_bytes 8 (km * 10 ^ 6)).
 Proof. exact clock_values. Qed.
 Print Assumptions C18_clock_values.
+
+(* poll_oneoff with ANY list of subscriptions: when the call succeeds it reports one event per subscription — first
+   those answered at once (clocks, fd_write, fd_read on a descriptor that is not open) in subscription order, then the
+   deferred ones (fd_read on an open descriptor) in subscription order — so the event area is a function of the
+   subscription list alone (with C18_trace_reproducible: the same on every host, run and engine) *)
+Theorem C18_poll_events_in_subscription_order : forall nf subs out sl,
+  poll_result nf subs = (0, out, sl) -> subs <> [] ->
+  let evs := map (sub_event nf) (filter (fun s => negb (sub_deferred nf s)) subs) ++
+             map (sub_event nf) (filter (sub_deferred nf) subs) in
+  length evs = length subs /\
+  out = le_bytes 4 (Z.of_nat (length subs)) ++ concat evs ++ repeat 0 (32 * length subs - length (concat evs))%nat.
+Proof. exact poll_events_in_subscription_order. Qed.
+Print Assumptions C18_poll_events_in_subscription_order.
